@@ -181,6 +181,9 @@ def unfold(sp: Spec, fam: str, r, params: tuple) -> None:
         unfold(sp, "den", r, params[-2:])
     for f in TABLES[fam].get(kind, []):
         f(sp, r, *params)
+    # objects allocated on this path: their children are known objects, unfold them too
+    for child in path.ghost.get("children", {}).get(str(r), []):
+        unfold(sp, fam, child, params)
 
 
 def ops_of(sp: Spec, r, table: list[str]) -> list[str]:
